@@ -19,7 +19,7 @@ REQUIRED = ["C07:one-entry-per-decision", "C07:stamp-latest-event", "C07:interes
             "C07:post-nlv-replayed", "C07:trade-quotes-as-logged", "C07:commission", "C07:holdings-recorded", "C07:weights-recorded",
             "C07:reward", "C07:times-strictly-increasing", "C07:nlv-series", "C07:transaction-costs-series",
             "C07:simple-returns-compound", "C07:xy-reward", "C07:record-read-mid-episode", "C07:record-survives-save-load", "C07:snapshot-adds-up"]
-REQUIRED_CATS = ["account-valued-inside-event-callbacks", "decision-refused-then-resubmitted", "bar-quotes-margined-contract-at-zero", "target-asks-for-dust-trade", "xy-reward-clip-binds", "scenario:cost-ruin", "reward:RewardPnL", "reward:RewardLogReturn", "reward:LogReturn", "reward:RewardSimpleReturn", "chain",
+REQUIRED_CATS = ["decision-refused-several-times-in-a-row", "account-valued-inside-event-callbacks", "decision-refused-then-resubmitted", "bar-quotes-margined-contract-at-zero", "target-asks-for-dust-trade", "xy-reward-clip-binds", "scenario:cost-ruin", "reward:RewardPnL", "reward:RewardLogReturn", "reward:LogReturn", "reward:RewardSimpleReturn", "chain",
                  "rate-path", "late-fold"]
 REQUIRED_HITS = ["Broker.rebalance"]
 TECHNIQUE = "runtime monitoring: offline replay of the recorded track record against the observer's quote log with an independent ledger"
